@@ -1,6 +1,7 @@
 package main
 
 import (
+	"path/filepath"
 	"unicode"
 	"os"
 	"os/exec"
@@ -849,8 +850,102 @@ func suiteDateFun(o *Out, thorough bool, seed int64) {
 			}
 		}
 	}
-	// zones with daylight saving, timeFormat, now/toDay: judged on the implementation alone
+	// timeFormat: layouts assembled from every layout element, near misses of each and literal text, against times in
+	// several fixed zones (with a fraction of a second, before 1970, in year 1 and 9999, offsets that are not whole
+	// minutes); judged by the model of Time.Format
+	{
+		pieces := []string{"Jan", "January", "Janx", "Ja", "JAN", "Mon", "Monday", "Month", "Mond", "Mo", "MS", "0", "01", "02", "03", "04", "05", "06", "07", "00", "002", "0026", "1", "15", "12", "150", "2", "2006", "200", "20", "20060",
+			"_2", "_2006", "__2", "_", "__", "___2", "_1", "3", "4", "5", "6", "33", "PM", "pm", "P", "Pm", "AM", "-07", "-0700", "-07:00", "-070000", "-07:00:00", "-0", "-070", "-07:0", "-07000", "Z07", "Z0700", "Z07:00", "Z070000", "Z07:00:00",
+			"Z", "Z0", "Z07:", ".0", ".000", ".000000000", ".0000000000", ".9", ".999", ",999999999", ",000", ".05", ".00x", ".999x", ",9 ", ".09", ".90", ".", ",", "..000", "T", ":", " ", "/", "\u00e9", "x", "a", "A", "é", "y", "-", "+", "(", "[", "%"}
+		times := []string{"M1707102429012345600:19800", "M1707102429000000000:0", "M1719837296789000000:-18000", "M-1000000001:3600", "M-62135596800000000000:0", "M253402300799999999999:50400", "M1700000000120000000:-34200",
+			"M43200000000000:0", "M1704067199999000000:20700", "M1709164800000000000:-90", "M1709164800000000001:30", "M946684800000000000:45900", "M1735689599500000000:-43200"}
+		fixedLayouts := []string{"2006-01-02T15:04:05Z07:00", "2006-01-02T15:04:05.999999999Z07:00", "Mon Jan _2 15:04:05 2006", "Mon Jan 02 15:04:05 -0700 2006", "02 Jan 06 15:04 -0700", "Monday, 02-Jan-06 15:04:05", "Mon, 02 Jan 2006 15:04:05 -0700",
+			"3:04PM", "Jan _2 15:04:05.000", "Jan _2 15:04:05.000000", "2006-01-02 15:04:05", "2006-01-02", "15:04:05", "01/02/06", "1/2/2006 3:4:5 pm", "002 __2", "20060102150405", "Jan 2, 2006 at 3:04pm (-07)", "", "no elements at all",
+			"2006-01-02 15:04:05.999999999 -0700", "05.000000000000", "05,9", "January Monday Janet Monster"}
+		n := 1500
+		if thorough {
+			n = 60000
+		}
+		for _, tm := range times {
+			for _, l := range fixedLayouts {
+				ev("timeFormat(t, l)", 0, wmap("t", tm, "l", ws(l)))
+			}
+			for _, pc := range pieces {
+				ev("timeFormat(t, l)", 0, wmap("t", tm, "l", ws(pc)))
+				ev("timeFormat(t, l)", 0, wmap("t", tm, "l", ws("x"+pc+"2")))
+			}
+		}
+		for i := 0; i < n; i++ {
+			var sb strings.Builder
+			for k := 1 + r.Intn(6); k > 0; k-- {
+				sb.WriteString(pieces[r.Intn(len(pieces))])
+			}
+			ev("timeFormat(t, l)", 0, wmap("t", times[r.Intn(len(times))], "l", ws(sb.String())))
+		}
+		ev("timeFormat(t, 'MST')", 0, wmap("t", times[0]))
+		o.Stat("timeFormat-layouts")
+	}
+	// zones with daylight saving, now/toDay: judged on the implementation alone
 	line := func(t string) string { return fmt.Sprintf("EV\t%s\t0\t-\t-", hx([]byte(t))) }
+	// every name of the zone database of this machine, and the same names in other letter case: a name the
+	// database knows changes the zone and keeps the instant (civil fields as the database has them), a name it does
+	// not know is an error
+	{
+		var names []string
+		root := "/usr/share/zoneinfo"
+		filepath.Walk(root, func(p string, info os.FileInfo, err error) error {
+			if err != nil || info.IsDir() {
+				return nil
+			}
+			rel := strings.TrimPrefix(p, root+"/")
+			if strings.HasPrefix(rel, "posix/") || strings.HasPrefix(rel, "right/") || strings.Contains(rel, ".") || rel == "leapseconds" || rel == "posixrules" || rel == "localtime" {
+				return nil
+			}
+			names = append(names, rel)
+			return nil
+		})
+		sort.Strings(names)
+		if len(names) == 0 {
+			o.Notes = append(o.Notes, "no zone database under /usr/share/zoneinfo: zone-name sweep skipped")
+		}
+		instants := []time.Time{time.Unix(1705321800, 0).UTC(), time.Unix(1720000000, 500000000).UTC()}
+		variants := func(n string) []string {
+			out := []string{n}
+			if !thorough && len(n)%5 != 0 {
+				return out
+			}
+			return append(out, strings.ToLower(n), strings.ToUpper(n), strings.Title(strings.ToLower(n)), n+" ", " "+n, n+"/")
+		}
+		known, unknown := 0, 0
+		for _, nm := range names {
+			for _, v := range variants(nm) {
+				loc, lerr := time.LoadLocation(v)
+				for _, ins := range instants {
+					data := wmap("t", fmt.Sprintf("M%d:0", ins.UnixNano()), "z", ws(v))
+					text := "[millSecond(useTimezone(t, z)) == millSecond(t), year(useTimezone(t, z)), month(useTimezone(t, z)), day(useTimezone(t, z)), hour(useTimezone(t, z)), minute(useTimezone(t, z)), weekDay(useTimezone(t, z))]"
+					obs, _ := implEval(text, 0, "-", data)
+					ln := fmt.Sprintf("EV\t%s\t0\t-\t%s", hx([]byte(text)), data)
+					o.Case("NOP\tzone\t"+hx([]byte(v))+fmt.Sprint(ins.Unix()), "-", true)
+					got := resultOf(obs)
+					if lerr != nil {
+						unknown++
+						if !strings.HasPrefix(got, "E") {
+							o.Fail(ln, fmt.Sprintf("useTimezone accepted the zone name %q, which the zone database does not know: %s", v, got))
+						}
+						continue
+					}
+					known++
+					w := ins.In(loc)
+					num := func(n int) interface{} { return decimal.New(int64(n), 0) }
+					want := "V " + enc([]interface{}{true, num(w.Year()), num(int(w.Month())), num(w.Day()), num(w.Hour()), num(w.Minute()), num(int(w.Weekday()))})
+					if got != want {
+						o.Fail(ln, fmt.Sprintf("useTimezone(t, %q): %s, required %s", v, got, want))
+					}
+				}
+			}
+		}
+		o.Stat(fmt.Sprintf("zone names: %d of the database, %d evaluations with a known name, %d with an unknown one", len(names), known, unknown))
+	}
 	for _, z := range []string{"America/New_York", "Europe/Berlin", "Australia/Lord_Howe", "Asia/Kolkata"} {
 		if _, err := time.LoadLocation(z); err != nil {
 			o.Notes = append(o.Notes, "zone "+z+" not available in this sandbox")
@@ -1300,6 +1395,15 @@ func suitePurity(o *Out, thorough bool, seed int64) {
 			d1, d2 := dumpTree(s1.Expression), dumpTree(s2.Expression)
 			if d1 != d2 {
 				o.Fail(line, "parsing the same text twice gave different trees")
+			}
+			// the caller reuses its buffer for the next formula (a line reader does): the first tree - its names,
+			// its literal values - must not change with the bytes it was parsed from
+			for k := range t1 {
+				t1[k] = other[k%len(other)]
+			}
+			formula.ParseSourceCode(t1)
+			if d := dumpTree(s1.Expression); d != d1 {
+				o.Fail(line, fmt.Sprintf("the tree of %q changed when the caller reused the buffer it was parsed from: %s became %s", text, d1, d))
 			}
 			meta := nodeMeta(s1.Expression)
 			var results []string
